@@ -256,6 +256,9 @@ func WriteExtendedForgeShort(wr io.Writer, toWrite int) (err error) {
 
 // WriteUTF util function as exists in Java
 func WriteUTF(wr io.Writer, s string) error {
+	if len(s) > math.MaxUint16 {
+		return fmt.Errorf("encoded string too long: %d bytes (maximum is %d)", len(s), math.MaxUint16)
+	}
 	err := WriteUint16(wr, uint16(len(s)))
 	if err != nil {
 		return err
